@@ -401,6 +401,8 @@ fn cmd_determinism(args: &[String]) -> i32 {
     let batch: u64 = arg_val(args, "--seed").and_then(|s| s.parse().ok()).unwrap_or(1);
     let threads: usize = arg_val(args, "--threads").and_then(|s| s.parse().ok()).unwrap_or(1);
     let plan = plans::plan(&prop, "quick");
+    #[cfg(not(miri))]
+    run::start_watchdog(10_000);
     let out: Mutex<Vec<(u64, u64, usize)>> = Mutex::new(vec![]);
     let next = AtomicU64::new(0);
     std::thread::scope(|s| {
@@ -504,6 +506,8 @@ fn cmd_check(args: &[String]) -> i32 {
     let next = AtomicU64::new(first);
     let total = Mutex::new(Agg::default());
     let done_runs = AtomicU64::new(0);
+    #[cfg(not(miri))]
+    run::start_watchdog(if max_ops < usize::MAX { 600_000 } else { 10_000 });
     std::thread::scope(|s| {
         for _ in 0..threads {
             s.spawn(|| {
